@@ -117,7 +117,7 @@ func Decode(addr string) (string, []byte, error) {
 func Encode(hrp string, data []byte, encoding EncodingType) (string, error) {
 	// Calculate the checksum of the data and append it at the end.
 	checksum := createChecksum(hrp, data, encoding)
-	combined := append(data, checksum...)
+	combined := append(append([]byte{}, data...), checksum...)
 
 	// The resulting blech32 string is the concatenation of the hrp, the
 	// separator 1, data and checksum. Everything after the separator is
